@@ -13,7 +13,7 @@ func init() {
 	register(&PropDef{
 		ID:    "C46",
 		Pkgs:  []string{xdsrsrc, xres},
-		Claim: "Decides the structural part: the runtime-fraction matcher draws from [0, 1000000) and must compare with strict 'draw < fraction' (thorough: the same rule for every zero-based uniform draw compared with a configured threshold in the module); domain match kinds are ordered wildcard < prefix < suffix < exact, 'better' is strict >, the best-virtual-host scan keeps its current choice exactly when it is of a better kind, or of the same kind and at least as long, or the domain does not match, takes the new host/kind/length together otherwise, and returns nil on an invalid domain; each kind's predicate is the documented one; the composite route matcher returns true only when the path matcher, every header matcher and the fraction matcher (when present) matched; SelectConfig uses the first route whose matcher matches and stops scanning, picks the cluster with the route's weighted-round-robin Next(), and the request hash's data sources are only the hash policies, the looked-up header values, the channel id (random only when no policy produced a hash), with -bin headers skipped and a terminal policy stopping only once a hash exists.",
+		Claim: "Decides the structural part: the runtime-fraction matcher draws from [0, 1000000) and must compare with strict 'draw < fraction' (thorough: the same rule for every zero-based uniform draw compared with a configured threshold in the module); domain match kinds are ordered wildcard < prefix < suffix < exact, 'better' is strict >, the best-virtual-host scan keeps its current choice exactly when it is of a better kind, or of the same kind and at least as long, or the domain does not match, takes the new host/kind/length together otherwise, and returns nil on an invalid domain; each kind's predicate is the documented one; the composite route matcher returns true only when the path matcher, every header matcher and the fraction matcher (when present) matched; SelectConfig uses the first route whose matcher matches and stops scanning, picks the cluster with the route's weighted-round-robin Next(), and the request hash's data sources are only the hash policies, the looked-up header values, the channel id (random only when no policy produced a hash), with -bin headers skipped and a terminal policy stopping only once a hash exists. In the request hash a policy's hash is mixed in exactly when that policy produced one, the policy walk stops early only at a terminal policy once a hash exists, an absent header contributes nothing, and outgoing metadata is consulted only without an extra-metadata value; a cluster is drawn only from a matched route with clusters and a route action, from a WRR filled with the configured cluster weights.",
 		NotDecided:  []string{"proportionality of cluster choice (C38 covers the weighted random pick)", "hash quality", "matching over all configurations against a reference router"},
 		Assumptions: []string{"math/rand/v2 IntN-style functions are uniform on [0,n)"},
 		Technique:   "static analysis: comparison-shape check of threshold tests on uniform draws (sibling sweep), constant ordering, refusing-arm unreachability and phi-edge pairing on go/ssa, must-pass-through, backward data slice with an allow-list of sources",
